@@ -178,6 +178,10 @@ impl<SystemType : System> SysCache<SystemType>
             {
                 match system.rename(&cache_path, &target_path)
                 {
+                    /*  Another rule which needs the same content can take the file between the
+                        check above and this rename.  Then the file is not there (any more), and
+                        the caller goes on as it does when the cache never had it. */
+                    Err(SystemError::NotFound) | Err(SystemError::RenameFromNonExistent) => RestoreResult::NotThere,
                     Err(error) => RestoreResult::SystemError(error),
                     Ok(()) => RestoreResult::Done
                 }
